@@ -209,6 +209,45 @@ def encU (k : Str) : Str := '_' :: k
 /-- `key.removeprefix("_")` -/
 def decU (k : Str) : Str := match k with | '_' :: r => r | r => r
 
+/-! ### A column with an explicit mask (`CIFColumn(data, mask)`, `BinaryCIFColumn`)
+
+`as_array()` in all its flavours, `as_item()`, `.data.array` and serialisation are *reads*: pure
+functions of (data, mask).  The state is threaded through `colStep` only so that this can be
+stated (`C06_reads_pure`) and checked against the real objects op by op. -/
+
+structure Col where
+  data : List Str
+  mask : List Nat
+  deriving Repr, DecidableEq
+
+inductive ColOp where
+  /-- `as_array(str, masked_value)` -/
+  | arr (maskedValue : Option Str)
+  /-- `column.data.array` -/
+  | data
+  /-- `CIFColumn(column.data).as_array()`: a second, unmasked column on the same data -/
+  | plain
+  deriving Repr
+
+/-- `as_array`: masked cells are shown as `masked_value`, or `.` / `?` by default. -/
+def Col.asArray (c : Col) (mv : Option Str) : List Str :=
+  List.zipWith (fun v m => if m == 0 then v else
+    match mv with
+    | some x => x
+    | none => if m == 1 then sDot else sQm) c.data c.mask
+
+def colStep (c : Col) : ColOp → Col × List Str
+  | .arr mv => (c, c.asArray mv)
+  | .data => (c, c.data)
+  | .plain => (c, c.data)
+
+def colRun : Col → List ColOp → Col × List (List Str)
+  | c, [] => (c, [])
+  | c, op :: ops =>
+    let r := colStep c op
+    let r' := colRun r.1 ops
+    (r'.1, r.2 :: r'.2)
+
 /-! ### The cached row count of a category (`_row_count`)
 
 `CIFCategory` / `BinaryCIFCategory` cache the row count in `row_count` and in `serialize()`.
